@@ -315,7 +315,14 @@ impl Multiboot2BasicHeader {
 
 impl Header for Multiboot2BasicHeader {
     fn payload_len(&self) -> usize {
-        self.length as usize - size_of::<Self>()
+        // A reported length smaller than the header itself is invalid. It must
+        // not underflow here; it is rejected when the header is loaded, as
+        // `total_size()` reports the value as it is.
+        (self.length as usize).saturating_sub(size_of::<Self>())
+    }
+
+    fn total_size(&self) -> usize {
+        self.length as usize
     }
 
     fn set_size(&mut self, total_size: usize) {
